@@ -396,7 +396,7 @@ func cmdCheck(id, tier string) int {
 		fv := byClass[c]
 		rp, min, err := shrinkAndConfirm(p, tier, master, fv, tmp)
 		if err != nil {
-			infra = append(infra, fmt.Sprintf("violation %s (run index %d) did not replay: %v", c, fv.Index, err))
+			infra = append(infra, fmt.Sprintf("violation %s (run index %d) did not replay: %v\noriginal message: %s", c, fv.Index, err, firstLines(fv.V.Msg, 40)))
 			continue
 		}
 		kf := matchKnown(known, min)
